@@ -4,7 +4,7 @@
 import json, os, subprocess, sys, re, glob
 here = os.path.dirname(os.path.abspath(__file__))
 root = os.path.join(here, '..')
-extra = {'C06b': ['C10'], 'C01b': ['C03'], 'C03a': ['C01', 'C10'], 'C10a': ['C03'], 'C02a': ['C03'], 'C06c': ['C10'], 'C08d': ['C01'], 'C11d': ['C10'], 'C06e': ['C10'], 'C04f': ['C05'], 'C05e': ['C04'], 'C08f': ['C02'], 'C14e': ['C04']}
+extra = {'C06b': ['C10'], 'C01b': ['C03'], 'C03a': ['C01', 'C10'], 'C10a': ['C03'], 'C02a': ['C03'], 'C06c': ['C10'], 'C08d': ['C01'], 'C11d': ['C10'], 'C06e': ['C10'], 'C04f': ['C05'], 'C05e': ['C04'], 'C08f': ['C02'], 'C14e': ['C04'], 'C07e': ['C11']}
 only = sys.argv[1:]
 rows = []
 from concurrent.futures import ThreadPoolExecutor
